@@ -203,7 +203,10 @@ def load_known(prop):
 
 
 def run_json(cmd, timeout=3600, env=None, cwd=None):
-    p = subprocess.run(cmd, capture_output=True, text=True, timeout=timeout, env=env, cwd=cwd)
+    try:
+        p = subprocess.run(cmd, capture_output=True, text=True, timeout=timeout, env=env, cwd=cwd)
+    except subprocess.TimeoutExpired:
+        raise Inconclusive("%s did not finish within %ss" % (" ".join(cmd[:3]), timeout))
     if p.returncode != 0:
         raise Inconclusive("%s exited %d:\n%s" % (" ".join(cmd[:3]), p.returncode, (p.stderr or p.stdout)[-3000:]))
     lines = [l for l in p.stdout.splitlines() if l.startswith("{")]
